@@ -1,20 +1,20 @@
 SPECIFICATION Spec
 CONSTANTS
   KeySeq <- KeySeq2
-  Configs <- ConfigsAll
-  KeyModes = {"", "if_new", "if_new_refresh", "if_exists"}
-  CasOffs = {1}
-  CasEps = {1}
-  Versions = {0, 1}
-  VerEpochs = {"", "va"}
-  IdemKeys = {""}
-  IdemTTLs = {1}
-  Scores = {0, 1}
-  Limits <- LimitsSmall
+  Configs <- ConfigsIdemT
+  KeyModes = {""}
+  CasOffs = {}
+  CasEps = {}
+  Versions = {0}
+  VerEpochs = {""}
+  IdemKeys = {"", "k1"}
+  IdemTTLs = {1, 2}
+  Scores = {0}
+  Limits <- LimitsTiny
   ReadEps <- ReadEpsSmall
-  SinceOffs <- SinceOffsSmall
+  SinceOffs <- SinceOffsTiny
   PageSizes = {1, 2}
-  MaxNow = 2
+  MaxNow = 3
   MaxPubs = 3
   MaxOps = 3
   Deterministic = FALSE
